@@ -209,7 +209,7 @@ def random_call(g, f, forced=None):
             data.append((sym(*s), g.term(s[1], 1)))
         data = tuple(data)
     elif name == "size":
-        data = g.rnd.randrange(6)
+        data = g.rnd.choice([None, 0, 1, 2, 3, 4, 5])       # None = the default measure
     elif name in ("to_smtlib", "parse_print"):
         data = g.rnd.randrange(2)
     return (name, f, data)
